@@ -174,8 +174,71 @@ impl Run {
         self.extra.insert(k.to_string(), v);
     }
 
+    /// Shadow run (VERIF_SHADOW=1, shipped-semantics build): hand the observations to the parent
+    /// on standard output instead of writing evidence.
+    fn finish_shadow(self) -> i32 {
+        for v in self.acc.violations.iter().take(60) {
+            println!("SHADOW-VIOLATION {}", json!({"signature": v.signature, "what": v.what, "case": v.case}));
+        }
+        println!("SHADOW-STATS {}", json!({"evaluations": self.acc.evaluations, "distinct": self.acc.distinct.len(), "violations": self.acc.violations.len()}));
+        0
+    }
+
+    /// The in-process monitors once more on the build with the shipped program's semantics.
+    fn shadow(&mut self) {
+        const SHADOWED: &[&str] = &["C01", "C02", "C04", "C05", "C06", "C07", "C10", "C11", "C12", "C13", "C14", "C15", "C18"];
+        if !SHADOWED.contains(&self.prop.as_str()) {
+            return;
+        }
+        let bin = match std::env::var("VERIF_SHIPPED_WMON") {
+            Ok(b) if std::path::Path::new(&b).exists() => b,
+            _ => {
+                self.set("shadow_run_shipped_profile", json!("not available (second build missing)"));
+                return;
+            }
+        };
+        let t0 = Instant::now();
+        let out = std::process::Command::new(&bin).args(["check", &self.prop, "quick"]).env("VERIF_SHADOW", "1").env("VERIF_SEED", self.seed.to_string()).output();
+        let out = match out {
+            Ok(o) => o,
+            Err(e) => {
+                self.set("shadow_run_shipped_profile", json!(format!("could not run: {}", e)));
+                return;
+            }
+        };
+        let text = String::from_utf8_lossy(&out.stdout);
+        let mut stats = Value::Null;
+        let mut n = 0;
+        for l in text.lines() {
+            if let Some(j) = l.strip_prefix("SHADOW-VIOLATION ") {
+                if let Ok(v) = serde_json::from_str::<Value>(j) {
+                    let sig = v["signature"].as_str().unwrap_or("?").to_string();
+                    let what = format!("[build with the shipped profile: no debug assertions, wrapping arithmetic] {}", v["what"].as_str().unwrap_or(""));
+                    let mut case = v["case"].clone();
+                    if let Some(o) = case.as_object_mut() {
+                        o.insert("profile".into(), json!("shipped"));
+                    }
+                    self.acc.violation(sig, what, case);
+                    n += 1;
+                }
+            } else if let Some(j) = l.strip_prefix("SHADOW-STATS ") {
+                stats = serde_json::from_str(j).unwrap_or(Value::Null);
+            }
+        }
+        if stats.is_null() {
+            // the shadow process died (a panic outside catch_unwind, an abort): that is an observation too
+            let err = String::from_utf8_lossy(&out.stderr);
+            self.acc.inconclusive.push(format!("shadow run on the shipped-profile build ended without a summary (status {:?}): {}", out.status.code(), err.lines().rev().take(3).collect::<Vec<_>>().join(" | ")));
+        }
+        self.set("shadow_run_shipped_profile", json!({"what": "the in-process part of this check once more (quick volume) on a build of the harness without debug assertions and with wrapping arithmetic - the semantics of the shipped binary", "summary": stats, "violations_taken_over": n, "seconds": t0.elapsed().as_secs_f64()}));
+    }
+
     /// Write evidence + replays, print verdict lines, return the exit code.
     pub fn finish(mut self) -> i32 {
+        if std::env::var("VERIF_SHADOW").map(|v| v == "1").unwrap_or(false) {
+            return self.finish_shadow();
+        }
+        self.shadow();
         let known = load_known();
         let mut new_viol: Vec<Violation> = Vec::new();
         let mut known_hit: BTreeMap<String, (String, u64)> = BTreeMap::new();
